@@ -14,6 +14,27 @@ for line in open(os.path.join(ROOT, "properties.jsonl")):
 
 # id -> (technique, level text, level note, design ref)
 CLAIMED = {
+    "C01": (
+        "proptest random search over a choice tape (structured command-tree generator + spec-derived argv generator), totality oracle under catch_unwind, shrinking",
+        "Hundreds of thousands (thorough: tens of millions) of generated command trees that pass clap's own configuration checks are "
+        "parsed against argv built from their own spellings, structural tokens, raw bytes incl. invalid UTF-8, huge and repeated tokens; "
+        "every panic outside the configuration assertions, every error that cannot be rendered or breaks the exit contract, and every "
+        "error returned under ignore_errors other than help/version is a violation. Exploration with shrinking; 'never loops' only as "
+        "'every case finished'.",
+        "Validity gate = Command::build() under catch_unwind with debug assertions on; a hang is reported as inconclusive (exit 2) by the "
+        "watchdog in ./check, never as a violation.",
+        "DESIGN.md section 4, C01",
+    ),
+    "C20": (
+        "bounded-exhaustive enumeration + proptest random search, two-pointer content-preservation walk and width invariant as oracle, via guarded hook and public help path",
+        "All texts up to 7 letters (thorough 8) over {word, space, newline, wide, zero-width, SGR} x widths 0..6 x plain/styled, plus random "
+        "texts up to 400 letters x widths 0..200/usize::MAX: the output must be the input with inter-word space runs replaced by newline + "
+        "indent and nothing else changed, plain lines within the width unless single-word, escape sequences intact, display widths equal to "
+        "the unicode-width reference. Also through render_help with sentinels (no hook).",
+        "Alphabet as in the statement (no tabs / other Unicode white space / non-SGR control sequences); features wrap_help+unicode; styled "
+        "indent only required to be spaces; hooks are thin re-exports.",
+        "DESIGN.md section 4, C20",
+    ),
     "C13": (
         "bounded-exhaustive enumeration + proptest random search over a choice tape, byte-level reference oracle and short-iterator model",
         "Every byte string up to length 6 (thorough 7) over a 12-byte boundary alphabet, plus random strings up to 64 bytes with random "
